@@ -98,3 +98,11 @@ pub fn ok_err<T>(r: &Result<T, ParseError>) -> String {
         Err(e) => format!("Err({})", err_name(e)),
     }
 }
+
+/// Open a slice with the byte-order spec given by the (zero-sized or run-time) value `_e`.
+pub fn open_as<'d, E: EndianParse>(_e: E, data: &'d [u8]) -> Result<elf::ElfBytes<'d, E>, ParseError> {
+    elf::ElfBytes::<E>::minimal_parse(data)
+}
+pub fn open_stream_as<E: EndianParse, S: std::io::Read + std::io::Seek>(_e: E, s: S) -> Result<elf::ElfStream<E, S>, ParseError> {
+    elf::ElfStream::<E, S>::open_stream(s)
+}
